@@ -242,7 +242,7 @@ impl TextSelection {
     /// Returns the end cursor (begin-aligned) of this text selection in another. Returns None if they are not embedded.
     /// **Note:** this does *NOT* check whether the textselections pertain to the same resource, that is up to the caller.
     pub fn relative_end(&self, container: &TextSelection) -> Option<usize> {
-        if self.end() <= container.end() {
+        if self.end() <= container.end() && self.end() >= container.begin() {
             Some(self.end() - container.begin())
         } else {
             None
@@ -264,7 +264,7 @@ impl TextSelection {
     /// Returns the begin cursor of this text selection in another, as an end aligned cursor. Returns None if they are not embedded.
     /// **Note:** this does *NOT* check whether the textselections pertain to the same resource, that is up to the caller.
     fn relative_end_endaligned(&self, container: &TextSelection) -> Option<isize> {
-        if self.end() <= container.end() {
+        if self.end() <= container.end() && self.end() >= container.begin() {
             let beginaligned = self.end() - container.begin();
             let containerlen = container.end() as isize - container.begin() as isize;
             Some(beginaligned as isize - containerlen)
